@@ -4,6 +4,7 @@ C06 — (store level) copies are independent.
 C14 — (store level) a failing operation yields no new state.
 -/
 import Rmk.Proofs.StoreLaws
+import Rmk.Proofs.StoreContent
 namespace Rmk.C05
 open Rmk Rmk.Impl Rmk.StoreLaws
 
@@ -21,6 +22,23 @@ theorem propagates (H : Hash) (s : Store) (r : Nat) (op : Op) (s' : Store)
       ∃ oc' po', s'[c]? = some oc' ∧ s'[p]? = some po' ∧ oc'.ty = oc.ty ∧ po'.ty = po.ty ∧
         childOf H po'.ty po'.backing key = some (oc'.ty, oc'.backing)) :=
   mutate_propagates H s r op s' hv h
+
+/-- CONTENT: in a store whose views represent values coherently along the chain of `r` (each child's
+    value is its parent's sub-value at the hook key), after a mutation through `r` EVERY enclosing
+    view — at any nesting depth — has exactly its old value with the updated sub-value put in at the
+    key path, and its root, its content read through the view API and its encoding are those of that
+    updated value.  (Only the chain needs to be coherent: stale sibling views are irrelevant.) -/
+theorem content (H : Hash) (s : Store) (r : Nat) (op : Op) (s' : Store)
+    (val : Nat → Val) (hv : Valid s) (hco : StoreContent.CoherentOn H s val (· ∈ chain s r))
+    (h : step H s (.mutate r op) = some s') :
+    ∃ (o : VObj) (new : Val), s[r]? = some o ∧ Spec.applyOp o.ty (val r) op = some new ∧
+      ∀ x ∈ StoreContent.pathsTo s (r + 1) r, ∀ oc, s[x.1]? = some oc →
+        ∃ oc' v', s'[x.1]? = some oc' ∧ oc'.ty = oc.ty ∧ oc'.hook = oc.hook ∧
+          StoreContent.updateAt x.2 oc.ty (val x.1) new = some v' ∧
+          oc'.backing.root H = Spec.htr H oc.ty v' ∧
+          readVal H oc.ty oc'.backing = some v' ∧
+          serTree H oc.ty oc'.backing = some (Spec.serialize oc.ty v', (Spec.serialize oc.ty v').length) :=
+  StoreContent.mutate_chain_observables H s r op s' val hv hco h
 
 /-- …and nothing else changes: views that are not on that chain (siblings, other subtrees, copies)
     are exactly as before. -/
